@@ -160,6 +160,17 @@ func c01Enumerate(tier string, seed int64, emit func(string, any)) {
 			emit("contexts", c01Case{Pre: c03Prelude, Srcs: []string{src, src}, Cfg: d})
 		}
 	}
+	// (iii') the same DAG built one level per run on one VM (the value is prior state of the last run, which only prints it)
+	for _, n := range []int{5, 18, 30, 45} {
+		for _, step := range []string{"a = [a, a]", "a = {'x': a, 'y': a}", "b = a; a = [a, b, 1]"} {
+			srcs := []string{"a = [1]"}
+			for i := 0; i < n; i++ {
+				srcs = append(srcs, step)
+			}
+			srcs = append(srcs, "a", "`{a}`", "[a, a] == [a, a]")
+			emit("ladders", c01Case{Srcs: srcs, Cfg: lad0})
+		}
+	}
 	// (iv') the valid-program x separator x broken-tail grid of C03 (abandoned alternatives leave parse-time state behind)
 	for _, p := range c03Programs {
 		for _, sep := range []string{"", " "} {
